@@ -854,6 +854,13 @@ Section Main.
   Variable rd : list (bytes * list dv).
   Variable T : list (bytes * list scalar).
 
+  Definition rt_keys_of (tab : list (bytes * list scalar)) (id : bytes) : list scalar :=
+    match find (fun '(n, _) => bytes_eqb n id) tab with Some (_, ks) => ks | None => [] end.
+  Definition key_rel (sc : scalar) (kd : dv) : Prop := exists k, rkey sc = Some k /\ to_dv k = kd.
+  (* the builder's table holds, for every record type of the document, keys with those data *)
+  Hypothesis HT : forall name kds, tab_lookup name rd = Some kds ->
+    Forall2 key_rel (rt_keys_of T name) kds /\ dkeys_distinct kds = true.
+
   Definition supp_list := fix go (ids : list bytes) (l : list dt) : option (list bytes) :=
     match l with
     | [] => Some ids
@@ -1007,7 +1014,9 @@ Section Main.
 
   Lemma chunked_leaf p b body :
     chunked_ok uc p b body = true ->
-    exists data sc d,
+    exists data,
+      let sc := abegin_scalar b data in
+      let d := abegin_dv b data in
       chunked_data (abegin_bits b) body = Some data /\ sem (TChunked b body) = Some d /\
       (forall st, step uc tc st (begin_event b)
                   = ROk (set_chunk st [] (crem st) (cmore st) (abegin_cb b) (abegin_bits b))) /\
@@ -1028,7 +1037,7 @@ Section Main.
         - split; [exact H|discriminate]. }
       destruct Hok as [Hok Hkey].
       destruct (ok_types_facts t (array_ok_types t data Hok)) as [Hlt Hbits].
-      exists data, (SArr t data), (array_dv t data).
+      exists data. cbn zeta. cbn [abegin_scalar abegin_dv].
       split; [reflexivity|]. split.
       { cbn [sem]. rewrite Hck. reflexivity. }
       split. { intro st. cbn [step begin_event]. rewrite Hlt. reflexivity. }
@@ -1039,7 +1048,7 @@ Section Main.
       intro Hp. subst p. rewrite (Hkey eq_refl) in Hc. cbn in Hc. inversion Hc; subst. reflexivity.
     - (* media *)
       apply andb_true_iff in H as [Hk Hmt]. apply negb_true_iff in Hk.
-      exists data, (SMedia mt data), (DMedia mt data).
+      exists data. cbn zeta. cbn [abegin_scalar abegin_dv].
       split; [reflexivity|]. split.
       { cbn [sem]. rewrite Hck. reflexivity. }
       split. { intro st. reflexivity. }
@@ -1053,7 +1062,9 @@ Section Main.
   Proof.
     intros ids p ids' Hs mk st base d Hst Hk Hn Hnode Hnm Hft Hrdy Hp Hrt Hids Hcl Hsem Hfresh.
     cbn [supp] in Hs. destruct (chunked_ok uc p b body) eqn:Hl; [|discriminate]. inversion Hs; subst ids'.
-    destruct (chunked_leaf p b body Hl) as [data [sc [dd [Hcd [Hsm [Hbeg [Hfire [Her Hconv]]]]]]]].
+    destruct (chunked_leaf p b body Hl) as [data Hcl0]. set (sc := abegin_scalar b data) in *.
+    set (dd := abegin_dv b data) in *. cbn zeta in Hcl0. fold sc dd in Hcl0.
+    destruct Hcl0 as [Hcd [Hsm [Hbeg [Hfire [Her Hconv]]]]].
     rewrite Hsm in Hsem. inversion Hsem; subst dd.
     set (st1 := set_chunk st data 0 false (abegin_cb b) (abegin_bits b)).
     destruct (Hconv (next st1)) as [x [Hc [Hd [Hh Hkv]]]].
@@ -1350,7 +1361,7 @@ Section Main.
     destruct k; try contradiction; intros _ Hs Hsem env.
     - cbn [sem] in Hsem. apply (event_dv_erase e dk env Hsem).
     - cbn [supp] in Hs. destruct (chunked_ok uc PKey b body) eqn:Hl; [|discriminate].
-      destruct (chunked_leaf PKey b body Hl) as [data [sc [dd [_ [Hsm [_ [_ [Her _]]]]]]]].
+      destruct (chunked_leaf PKey b body Hl) as [data [_ [Hsm [_ [_ [Her _]]]]]]. set (dd := abegin_dv b data) in *.
       rewrite Hsm in Hsem. inversion Hsem; subst dd. apply Her.
   Qed.
 
@@ -1428,7 +1439,6 @@ Section Main.
       destruct (use_value k Hk ids PKey ids1 st (FMap id acc key0 false None :: rest) dk Hsk Hst)
         as [st1 [xk [Hex1 [Hput1 [Hf1 [Hc1 [Her1 [Hh1 [Hp1 Hkv1]]]]]]]]];
         try assumption; try reflexivity; try discriminate.
-      { unfold ready. cbn [put]. destruct key0; reflexivity. }
       specialize (Hkv1 eq_refl).
       assert (Hs1 : stack st1 = FMap id acc (Some xk) true None :: rest /\ tobj st1 = tobj st).
       { cbn [put] in Hput1. destruct key0; inversion Hput1; auto. }
@@ -1503,24 +1513,24 @@ Section Main.
     cbn [sem] in Hsem. rewrite omap2_sem_kv in Hsem.
     destruct (omap2 sem_kv kvs) as [ds|] eqn:Hds; [|discriminate]. inversion Hsem; subst d.
     destruct base as [|fr r]; [discriminate|].
-    destruct (begin_container uc tc EMap KMap mk fr r st eq_refl Hst (ready_plain fr r _ Hrdy))
-      as [st1 [Hb [Hs1 [Ht1 [Hm1 Hp1]]]]].
+    destruct (begin_container uc tc EMap KMap mk fr r st eq_refl Hst Hrdy)
+      as [st1 [Hb [Hs1 [Ht1 [Hm1 [Hp1 Hrt1]]]]]].
     cbn [new_frame] in Hs1.
-    set (rest := mkframes mk true ++ fr :: r) in *.
-    assert (Hp1' : pending st1 = []) by congruence.
+    set (rest := mkframes mk true ++ keyed fr :: r) in *.
+    assert (Hq1 : pending st1 = [] /\ rt_tab st1 = T) by (split; congruence).
     assert (Hids' : ids = map fst (marked st1)) by congruence.
     assert (Hcl' : env_clean (marked st1)) by (rewrite Hm1; exact Hcl).
-    destruct (kvs_run kvs IHl ids ids' (next st + 1) [] None rest st1 ds kds Hs Hs1 Hp1' Hids' Hcl' Hds Hkds
+    destruct (kvs_run kvs IHl ids ids' (next st + 1) [] None rest st1 ds kds Hs Hs1 Hq1 Hids' Hcl' Hds Hkds
                       Hdis (Forall_nil _))
-      as [st2 [es [key1 [Hex2 [Hs2 [Ht2 [Hf2 [Hc2 [Her2 [Hh2 Hp2]]]]]]]]]].
+      as [st2 [es [key1 [Hex2 [Hs2 [Ht2 [Hf2 [Hc2 [Her2 [Hh2 [Hp2 Hrt2]]]]]]]]]]].
     cbn [app] in Hs2.
     set (st3 := set_stack st2 rest).
     set (mv := UMap (next st + 1) es).
     assert (Hhl : has_hole mv = false) by (apply has_hole_kvs; exact Hh2).
     destruct (ready_put (fr :: r) (tobj st) mv true Hrdy) as [s' [t' Hput]].
-    destruct (finish_container mv mk (fr :: r) st3 s' t') as [st4 [Hnd [Hs4 [Ht4 [Hm4 Hp4]]]]];
+    destruct (finish_container mv mk (keyed fr :: r) st3 s' t') as [st4 [Hnd [Hs4 [Ht4 [Hm4 [Hp4 Hrt4]]]]]];
       try assumption; try reflexivity.
-    { change (tobj st3) with (tobj st2). rewrite Ht2, Ht1. exact Hput. }
+    { change (tobj st3) with (tobj st2). rewrite Ht2, Ht1, putc_keyed by exact Hrdy. exact Hput. }
     { apply (fresh_after mk ids ids' Hfresh). exact Hf2. }
     exists st4, mv, (marked st2). split.
     { cbn [flat exec]. rewrite Hb. cbn [rbind]. rewrite flat_map_kv.
@@ -1532,7 +1542,136 @@ Section Main.
     split. { exact Hc2. }
     split. { rewrite erase_DMap. unfold mv. cbn [to_dv]. rewrite Hm1 in Her2. rewrite Her2, map_kv_dv. reflexivity. }
     split. { exact Hhl. }
-    split. { exact Hp4. }
+    split. { split; [exact Hp4|]. rewrite Hrt4. exact Hrt2. }
+    intro Hpk. subst p. discriminate.
+  Qed.
+
+  (* ---- records ---- *)
+  Lemma supp_TRecord ids p name vals :
+    supp uc tc rd ids p (TRecord name vals) =
+    if is_key p then None
+    else match tab_lookup name rd with
+         | Some kds => if (length vals =? length kds)%nat then supp_list ids vals else None
+         | None => None
+         end.
+  Proof. reflexivity. Qed.
+
+  Lemma rec_key_app kdone sc krem k :
+    rkey sc = Some k -> rec_key (kdone ++ sc :: krem) (length kdone) = Some k.
+  Proof.
+    intro H. unfold rec_key. rewrite nth_error_app2 by lia. rewrite Nat.sub_diag. cbn [nth_error]. exact H.
+  Qed.
+
+  Lemma rec_elems_run l : Forall value_ok l ->
+    forall ids ids' id acc key0 kdone krem rest st ds kdr,
+      supp_list ids l = Some ids' ->
+      stack st = FMap id acc key0 false (Some (kdone ++ krem, length kdone)) :: rest ->
+      (pending st = [] /\ rt_tab st = T) -> ids = map fst (marked st) -> env_clean (marked st) ->
+      omap2 sem l = Some ds ->
+      Forall2 key_rel krem kdr -> length l = length kdr ->
+      dkeys_distinct (map (fun kx => to_dv (fst kx)) acc ++ kdr) = true ->
+      Forall (fun kx => keyval (fst kx) = true) acc ->
+      exists st' es vs key1,
+        exec uc tc st (flat_map flat l) = ROk st' /\
+        stack st' = FMap id (acc ++ es) key1 false (Some (kdone ++ krem, (length kdone + length l)%nat)) :: rest /\
+        tobj st' = tobj st /\ map fst (marked st') = ids' /\ env_clean (marked st') /\
+        erase_list (erase rd) (env_data (marked st)) ds = Some (map to_dv vs, env_data (marked st')) /\
+        map kv_dv es = zip_kv kdr (map to_dv vs) /\
+        Forall (fun kx => has_hole (fst kx) = false /\ has_hole (snd kx) = false) es /\
+        (pending st' = [] /\ rt_tab st' = T).
+  Proof.
+    induction 1 as [|x r Hx _ IH];
+      intros ids ids' id acc key0 kdone krem rest st ds kdr Hs Hst Hq Hids Hcl Hsem Hrel Hlen Hdis Hkv.
+    - cbn [supp_list] in Hs. inversion Hs; subst ids'. cbn [omap2] in Hsem. inversion Hsem; subst ds.
+      destruct kdr; [|discriminate].
+      exists st, [], [], key0. cbn [flat_map exec length]. rewrite app_nil_r, Nat.add_0_r.
+      repeat split; auto; apply Hq.
+    - cbn [supp_list] in Hs. destruct (supp uc tc rd ids PGen x) as [ids1|] eqn:Hsx; [|discriminate].
+      cbn [omap2] in Hsem. destruct (sem x) as [dx|] eqn:Hdx; [|discriminate].
+      destruct (omap2 sem r) as [dr|] eqn:Hdr; [|discriminate]. inversion Hsem; subst ds.
+      destruct kdr as [|kd kdr']; [discriminate|]. cbn [length] in Hlen. injection Hlen as Hlen.
+      inversion Hrel as [|sc kd0 krem' kdr0 [k [Hrk Hkd]] Hrel' E1 E2]; subst krem kd0 kdr0.
+      pose proof (rec_key_app kdone sc krem' k Hrk) as Hreck.
+      pose proof (rkey_keyval sc k Hrk) as Hkk.
+      destruct (use_value x Hx ids PGen ids1 st _ dx Hsx Hst)
+        as [st1 [v [Hex [Hput [Hf [Hc1 [Her [Hh [Hq1 _]]]]]]]]];
+        try assumption; try discriminate.
+      { unfold ready. cbn [put]. rewrite Hreck. reflexivity. }
+      cbn [put] in Hput. rewrite Hreck in Hput. inversion Hput as [[Hs1 Ht1]].
+      assert (Hset : assoc_set k v acc = acc ++ [(k, v)]).
+      { apply assoc_set_fresh. intros k' x' Hin.
+        destruct (key_eqb k' k) eqn:E; [|reflexivity]. exfalso.
+        assert (Hk' : keyval k' = true).
+        { rewrite Forall_forall in Hkv. apply (Hkv (k', x') Hin). }
+        pose proof (keyval_eq k' k Hk' Hkk E) as Hd. rewrite Hkd in Hd.
+        assert (Hd' : dkey_eqb (to_dv k') kd = false).
+        { apply (dkeys_distinct_mid _ kd kdr' Hdis).
+          apply in_map_iff. exists (k', x'). split; [reflexivity|exact Hin]. }
+        congruence. }
+      rewrite Hset in Hs1.
+      assert (Hre : kdone ++ sc :: krem' = (kdone ++ [sc]) ++ krem') by (rewrite <- app_assoc; reflexivity).
+      assert (Hle : S (length kdone) = length (kdone ++ [sc])) by (rewrite app_length; cbn; lia).
+      rewrite Hre, Hle in Hs1.
+      destruct (IH ids1 ids' id (acc ++ [(k, v)]) (Some k) (kdone ++ [sc]) krem' rest st1 dr kdr' Hs (eq_sym Hs1) Hq1
+                   (eq_sym Hf) Hc1 eq_refl Hrel' Hlen)
+        as [st2 [es [vs [key1 [Hex2 [Hs2 [Ht2 [Hf2 [Hc2 [Her2 [Hz [Hh2 Hq2]]]]]]]]]]]].
+      { rewrite map_app. cbn [map fst]. rewrite Hkd, <- app_assoc. exact Hdis. }
+      { apply Forall_app. split; [exact Hkv|]. constructor; [exact Hkk|constructor]. }
+      exists st2, ((k, v) :: es), (v :: vs), key1. split.
+      { cbn [flat_map]. rewrite (exec_app_ok uc tc _ _ st st1 Hex). exact Hex2. }
+      split. { rewrite Hs2, <- app_assoc, <- Hre, <- Hle. cbn [length app]. f_equal. f_equal. f_equal. f_equal. lia. }
+      split. { rewrite Ht2. symmetry. exact Ht1. }
+      split. { exact Hf2. }
+      split. { exact Hc2. }
+      split. { cbn [erase_list]. rewrite Her, Her2. reflexivity. }
+      split. { cbn [map zip_kv]. rewrite <- Hz. unfold kv_dv at 1. cbn [fst snd]. rewrite Hkd. reflexivity. }
+      split. { constructor; [split; [apply keyval_no_hole; exact Hkk|exact Hh]|exact Hh2]. }
+      exact Hq2.
+  Qed.
+
+  Lemma value_record name vals : Forall value_ok vals -> value_ok (TRecord name vals).
+  Proof.
+    intros IHl ids p ids' Hs mk st base d Hst Hk Hn Hnode Hnm Hft Hrdy Hp Hrt Hids Hcl Hsem Hfresh.
+    rewrite supp_TRecord in Hs. destruct (is_key p) eqn:Hkp; [discriminate|].
+    destruct (tab_lookup name rd) as [kds|] eqn:Hlk; [|discriminate].
+    destruct (length vals =? length kds)%nat eqn:Hlen; [|discriminate]. apply Nat.eqb_eq in Hlen.
+    destruct (HT name kds Hlk) as [Hrel Hdis].
+    cbn [sem] in Hsem. destruct (omap2 sem vals) as [ds|] eqn:Hds; [|discriminate]. inversion Hsem; subst d.
+    destruct base as [|fr r]; [discriminate|].
+    set (rest := mkframes mk true ++ keyed fr :: r).
+    set (keys := rt_keys_of T name) in *.
+    set (st1 := set_stack (bump (bump st)) (FMap (next st + 1) [] None false (Some (keys, O)) :: rest)).
+    assert (Hb : step uc tc st (ERecord name) = ROk st1).
+    { cbn [step]. rewrite Hrt. fold (rt_keys_of T name). fold keys. rewrite Hst. unfold st1, rest.
+      destruct mk as [mid|]; cbn [mkframes app].
+      - rewrite recv_begin_marker, (recv_begin_ready uc tc KMap _ fr r r st (tobj st) Hrdy). reflexivity.
+      - rewrite (recv_begin_ready uc tc KMap _ fr r r st (tobj st) Hrdy). reflexivity. }
+    assert (Hq1 : pending st1 = [] /\ rt_tab st1 = T) by (split; [exact Hp|exact Hrt]).
+    destruct (rec_elems_run vals IHl ids ids' (next st + 1) [] None [] keys rest st1 ds kds Hs eq_refl Hq1 Hids Hcl
+                            Hds Hrel Hlen Hdis (Forall_nil _))
+      as [st2 [es [vs [key1 [Hex2 [Hs2 [Ht2 [Hf2 [Hc2 [Her2 [Hz [Hh2 [Hp2 Hrt2]]]]]]]]]]]]].
+    cbn [app length] in Hs2.
+    set (st3 := set_stack st2 rest).
+    set (mv := UMap (next st + 1) es).
+    assert (Hhl : has_hole mv = false) by (apply has_hole_kvs; exact Hh2).
+    destruct (ready_put (fr :: r) (tobj st) mv true Hrdy) as [s' [t' Hput]].
+    destruct (finish_container mv mk (keyed fr :: r) st3 s' t') as [st4 [Hnd [Hs4 [Ht4 [Hm4 [Hp4 Hrt4]]]]]];
+      try assumption; try reflexivity.
+    { change (tobj st3) with (tobj st2). rewrite Ht2. change (tobj st1) with (tobj st).
+      rewrite putc_keyed by exact Hrdy. exact Hput. }
+    { apply (fresh_after mk ids ids' Hfresh). exact Hf2. }
+    exists st4, mv, (marked st2). split.
+    { cbn [flat exec]. rewrite Hb. cbn [rbind].
+      rewrite (exec_app_ok uc tc _ _ st1 st2 Hex2). cbn [exec step]. rewrite Hs2.
+      rewrite recv_end_map. cbn [app tl]. fold st3. fold mv. rewrite Hnd. reflexivity. }
+    split. { cbn [contb]. rewrite Hs4, Ht4. exact Hput. }
+    split. { exact Hm4. }
+    split. { exact Hf2. }
+    split. { exact Hc2. }
+    split. { cbn [erase]. rewrite Hlk. change (marked st1) with (marked st) in Her2. rewrite Her2.
+             unfold mv. cbn [to_dv]. rewrite map_kv_dv, Hz. reflexivity. }
+    split. { exact Hhl. }
+    split. { split; [exact Hp4|]. rewrite Hrt4. exact Hrt2. }
     intro Hpk. subst p. discriminate.
   Qed.
 
@@ -1546,7 +1685,7 @@ Section Main.
     - apply value_map. assumption.
     - apply value_node; assumption.
     - intros ids p ids' Hs. discriminate.
-    - intros ids p ids' Hs. discriminate.
+    - apply value_record. assumption.
     - apply value_mark. assumption.
     - apply value_ref.
   Qed.
@@ -1602,42 +1741,263 @@ Qed.
 (* Documents of the fragment                                            *)
 (* ------------------------------------------------------------------ *)
 
+(* ---- record type declarations ---- *)
+Section Decls.
+  Variable uc : bytes -> option bytes.
+  Variable tc : bytes -> option (bytes * bytes).
+
+  Lemma recv_scalar_rectype sc k above below st :
+    rkey sc = Some k ->
+    recv_scalar uc tc sc above FRecType below st =
+    ROk (set_rt (set_stack (bump st) (above ++ FRecType :: below)) (rt_name st) (rt_keys st ++ [sc]) (rt_tab st)).
+  Proof. destruct sc; cbn [rkey]; intro H; try discriminate; destruct below; reflexivity. Qed.
+
+  Lemma rkey_event_dv e sc k :
+    event_scalar e = Some sc -> rkey sc = Some k -> event_dv e = Some (to_dv k).
+  Proof.
+    destruct e; cbn [event_scalar event_dv]; intros Hsc Hrk; inversion Hsc; subst sc;
+      cbn [rkey] in Hrk; try discriminate; try (inversion Hrk; subst; reflexivity).
+    - unfold negint_scalar in Hrk. destruct (n =? 0); [discriminate|].
+      destruct (n <=? max_int64); [|discriminate]. inversion Hrk; subst. reflexivity.
+    - destruct (length b =? 16)%nat; [|discriminate]. inversion Hrk; subst. reflexivity.
+    - destruct (N.eqb_spec t AT_String); [|discriminate]. subst t. inversion Hrk; subst. reflexivity.
+    - destruct (N.eqb_spec t AT_String); [|discriminate]. subst t. inversion Hrk; subst. reflexivity.
+  Qed.
+
+  (* the state after a step inside a record type declaration: only the key list grows *)
+  Definition rt_grown (st st' : mstate) (scs : list scalar) : Prop :=
+    stack st' = stack st /\ tobj st' = tobj st /\ marked st' = marked st /\ pending st' = pending st /\
+    rt_tab st' = rt_tab st /\ rt_name st' = rt_name st /\ rt_keys st' = rt_keys st ++ scs.
+
+  Lemma rt_key_run (rd : list (bytes * list dv)) k kd st S :
+    rt_key_ok uc k = true -> sem k = Some kd -> stack st = FRecType :: S ->
+    exists st' sc kk,
+      exec uc tc st (flat k) = ROk st' /\ rkey sc = Some kk /\ to_dv kk = kd /\ rt_grown st st' [sc].
+  Proof.
+    intros Hok Hsem Hst. destruct k; try discriminate.
+    - cbn [rt_key_ok] in Hok. destruct (event_scalar e) as [sc|] eqn:Hsc; [|discriminate].
+      destruct (rkey sc) as [kk|] eqn:Hrk; [|discriminate].
+      exists (set_rt (set_stack (bump st) (FRecType :: S)) (rt_name st) (rt_keys st ++ [sc]) (rt_tab st)), sc, kk.
+      split.
+      { cbn [flat exec]. rewrite (step_value uc tc e sc st Hsc). unfold on_scalar. rewrite Hst.
+        rewrite (recv_scalar_rectype sc kk [] S st Hrk). reflexivity. }
+      split; [exact Hrk|]. split.
+      { cbn [sem] in Hsem. rewrite (rkey_event_dv e sc kk Hsc Hrk) in Hsem. inversion Hsem; reflexivity. }
+      unfold rt_grown. rewrite Hst. cbn. auto 10.
+    - cbn [rt_key_ok] in Hok.
+      destruct (chunked_leaf uc tc rd PKey b body Hok) as [data [Hcd [Hsm [Hbeg [Hfire _]]]]].
+      rewrite Hsm in Hsem. inversion Hsem as [Hkd]. clear Hsem.
+      assert (Hb : b = ABArray AT_String).
+      { unfold chunked_ok in Hok. destruct (chunked_data (abegin_bits b) body); [|discriminate].
+        destruct (chunk_data (abegin_elem_bytes b) body 0 false []); [|discriminate].
+        apply andb_true_iff in Hok as [_ Hok]. destruct b as [t|mt|t ct]; cbn [is_key] in Hok; try discriminate.
+        apply N.eqb_eq in Hok. subst t. reflexivity. }
+      subst b. cbn [abegin_scalar] in Hfire.
+      set (st1 := set_chunk st data 0 false (abegin_cb (ABArray AT_String)) (abegin_bits (ABArray AT_String))).
+      exists (set_rt (set_stack (bump st1) (FRecType :: S)) (rt_name st1) (rt_keys st1 ++ [SArr AT_String data]) (rt_tab st1)),
+             (SArr AT_String data), (UStr data).
+      split.
+      { cbn [flat]. rewrite (chunked_exec uc tc _ body data st (Hbeg st) Hcd). rewrite Hfire.
+        unfold on_scalar. change (stack (set_chunk st data 0 false _ _)) with (stack st). rewrite Hst.
+        rewrite (recv_scalar_rectype (SArr AT_String data) (UStr data) [] S _ eq_refl). reflexivity. }
+      split; [reflexivity|]. split.
+      { reflexivity. }
+      unfold rt_grown. rewrite Hst. cbn. auto 10.
+  Qed.
+
+  Lemma rt_keys_run (rd : list (bytes * list dv)) keys : forall kds st S,
+    forallb (rt_key_ok uc) keys = true -> omap2 sem keys = Some kds -> stack st = FRecType :: S ->
+    exists st' scs,
+      exec uc tc st (flat_map flat keys) = ROk st' /\
+      Forall2 (fun sc kd => exists k, rkey sc = Some k /\ to_dv k = kd) scs kds /\ rt_grown st st' scs.
+  Proof.
+    induction keys as [|k r IH]; intros kds st S Hok Hsem Hst.
+    - cbn [omap2] in Hsem. inversion Hsem; subst kds. exists st, []. split; [reflexivity|].
+      split; [constructor|]. unfold rt_grown. rewrite app_nil_r. auto 10.
+    - cbn [forallb] in Hok. apply andb_true_iff in Hok as [Hk Hr].
+      cbn [omap2] in Hsem. destruct (sem k) as [kd|] eqn:Hdk; [|discriminate].
+      destruct (omap2 sem r) as [kdr|] eqn:Hdr; [|discriminate]. inversion Hsem; subst kds.
+      destruct (rt_key_run rd k kd st S Hk Hdk Hst) as [st1 [sc [kk [Hex [Hrk [Hkd G1]]]]]].
+      destruct G1 as [G1s [G1t [G1m [G1p [G1tab [G1n G1k]]]]]].
+      destruct (IH kdr st1 S Hr eq_refl) as [st2 [scs [Hex2 [Hrel G2]]]]; [congruence|].
+      destruct G2 as [G2s [G2t [G2m [G2p [G2tab [G2n G2k]]]]]].
+      exists st2, (sc :: scs). split.
+      { cbn [flat_map]. rewrite (exec_app_ok uc tc _ _ st st1 Hex). exact Hex2. }
+      split. { constructor; [exists kk; auto|exact Hrel]. }
+      unfold rt_grown. rewrite G2k, G1k, <- app_assoc. cbn [app]. repeat split; congruence.
+  Qed.
+
+  Lemma recv_end_rectype above below st :
+    recv_end above FRecType below st =
+    ROk (set_rt (set_stack st (tl (above ++ FRecType :: below))) (rt_name st) (rt_keys st)
+                ((rt_name st, rt_keys st) :: filter (fun '(n, _) => negb (bytes_eqb n (rt_name st))) (rt_tab st))).
+  Proof. destruct below; reflexivity. Qed.
+
+  (* one declaration *)
+  Lemma rt_decl_run (rd : list (bytes * list dv)) (d : rtdecl) kds st :
+    forallb (rt_key_ok uc) (snd d) = true -> omap2 sem (snd d) = Some kds ->
+    exists st' scs,
+      exec uc tc st (flat_rt d) = ROk st' /\
+      Forall2 (fun sc kd => exists k, rkey sc = Some k /\ to_dv k = kd) scs kds /\
+      stack st' = stack st /\ tobj st' = tobj st /\ marked st' = marked st /\ pending st' = pending st /\
+      rt_tab st' = (fst d, scs) :: filter (fun '(n, _) => negb (bytes_eqb n (fst d))) (rt_tab st).
+  Proof.
+    intros Hok Hsem. unfold flat_rt. cbn [exec step rbind].
+    set (st0 := set_rt (set_stack st (FRecType :: stack st)) (fst d) [] (rt_tab st)).
+    destruct (rt_keys_run rd (snd d) kds st0 (stack st) Hok Hsem eq_refl) as [st1 [scs [Hex [Hrel G]]]].
+    destruct G as [Gs [Gt [Gm [Gp [Gtab [Gn Gk]]]]]].
+    rewrite (exec_app_ok uc tc _ _ st0 st1 Hex). cbn [exec step]. rewrite Gs. cbn [stack st0 set_rt set_stack].
+    rewrite recv_end_rectype. cbn [rbind].
+    eexists. exists scs. split; [reflexivity|]. split; [exact Hrel|].
+    cbn. rewrite Gt, Gm, Gp, Gtab, Gn, Gk. cbn. auto 10.
+  Qed.
+End Decls.
+
+(* the builder's table after the declarations and the key data of the document agree *)
+Definition tables_agree (rd : list (bytes * list dv)) (T : list (bytes * list scalar)) : Prop :=
+  forall name kds, tab_lookup name rd = Some kds ->
+    Forall2 (fun sc kd => exists k, rkey sc = Some k /\ to_dv k = kd)
+            (match find (fun '(n, _) => bytes_eqb n name) T with Some (_, ks) => ks | None => [] end) kds
+    /\ dkeys_distinct kds = true.
+
+Lemma bytes_eqb_sym a b : bytes_eqb a b = bytes_eqb b a.
+Proof.
+  destruct (bytes_eqb a b) eqn:E.
+  - apply bytes_eqb_eq in E. subst. symmetry. apply bytes_eqb_eq. reflexivity.
+  - destruct (bytes_eqb b a) eqn:E2; [|reflexivity]. apply bytes_eqb_eq in E2. subst.
+    rewrite (proj2 (bytes_eqb_eq a a) eq_refl) in E. discriminate.
+Qed.
+
+Lemma tab_lookup_app {A} name (l1 l2 : list (bytes * A)) :
+  tab_lookup name (l1 ++ l2) = match tab_lookup name l1 with Some x => Some x | None => tab_lookup name l2 end.
+Proof.
+  induction l1 as [|[n x] r IH]; [reflexivity|]. cbn [app tab_lookup]. destruct (bytes_eqb name n); [reflexivity|exact IH].
+Qed.
+
+Lemma tab_lookup_none {A} name (l : list (bytes * A)) :
+  mem_id name (map fst l) = false -> tab_lookup name l = None.
+Proof.
+  induction l as [|[n x] r IH]; [reflexivity|]. cbn [map fst mem_id tab_lookup]. intro H.
+  apply orb_false_iff in H as [H1 H2]. rewrite bytes_eqb_sym, H1. apply IH, H2.
+Qed.
+
+Lemma mem_id_app_false id a b :
+  mem_id id (a ++ b) = false <-> mem_id id a = false /\ mem_id id b = false.
+Proof.
+  induction a as [|x r IH]; cbn [app mem_id].
+  - tauto.
+  - rewrite !orb_false_iff, IH. tauto.
+Qed.
+
+Lemma find_filter_other {A} name n (l : list (bytes * A)) :
+  bytes_eqb n name = false ->
+  find (fun '(m, _) => bytes_eqb m name) (filter (fun '(m, _) => negb (bytes_eqb m n)) l)
+  = find (fun '(m, _) => bytes_eqb m name) l.
+Proof.
+  intro Hn. induction l as [|[m x] r IH]; [reflexivity|]. cbn [filter find].
+  destruct (bytes_eqb m n) eqn:Emn; cbn [negb].
+  - apply bytes_eqb_eq in Emn. subst m. rewrite Hn. exact IH.
+  - cbn [find]. destruct (bytes_eqb m name); [reflexivity|exact IH].
+Qed.
+
 Section Documents.
   Variable uc : bytes -> option bytes.
   Variable tc : bytes -> option (bytes * bytes).
 
-  Lemma exec_fragment t d :
-    supported6 uc tc [] t = true -> sem t = Some d ->
-    exists st v d',
-      exec uc tc init_state (doc_events [] t) = ROk st /\ built st = dehole v /\
-      erase_doc [] d = Some d' /\ to_dv v = d'.
+  (* all the declarations *)
+  Lemma rt_decls_run rts : forall rd0 rd1 st,
+    names_distinct (map fst rts) = true ->
+    (forall d, In d rts -> mem_id (fst d) (map fst rd0) = false) ->
+    forallb (fun d : rtdecl => forallb (rt_key_ok uc) (snd d) &&
+               match omap2 sem (snd d) with Some ks => dkeys_distinct ks | None => false end) rts = true ->
+    rts_data rts = Some rd1 ->
+    tables_agree rd0 (rt_tab st) ->
+    exists st',
+      exec uc tc st (flat_map flat_rt rts) = ROk st' /\
+      stack st' = stack st /\ tobj st' = tobj st /\ marked st' = marked st /\ pending st' = pending st /\
+      tables_agree (rd0 ++ rd1) (rt_tab st').
   Proof.
-    unfold supported6. destruct (supp uc tc [] PGen t) as [ids'|] eqn:Hs; [|discriminate]. intros _ Hsem.
-    destruct (use_value uc tc t (all_values uc tc t) [] PGen ids' init_state [FTop] d Hs eq_refl)
+    induction rts as [|d r IH]; intros rd0 rd1 st Hnd Hfresh Hok Hdata Hag.
+    - cbn in Hdata. inversion Hdata; subst rd1. exists st. rewrite app_nil_r. cbn [flat_map exec].
+      split; [reflexivity|]. split; [reflexivity|]. split; [reflexivity|]. split; [reflexivity|]. split; [reflexivity|]. exact Hag.
+    - cbn [map names_distinct] in Hnd. apply andb_true_iff in Hnd as [Hn1 Hnd]. apply negb_true_iff in Hn1.
+      cbn [forallb] in Hok. apply andb_true_iff in Hok as [Hd Hok]. apply andb_true_iff in Hd as [Hkeys Hdist].
+      unfold rts_data in Hdata. cbn [omap2] in Hdata.
+      destruct (omap2 sem (snd d)) as [kds|] eqn:Hkds; [|discriminate].
+      fold (rts_data r) in Hdata. destruct (rts_data r) as [rdr|] eqn:Hrdr; [|discriminate].
+      inversion Hdata; subst rd1.
+      destruct (rt_decl_run uc tc (rd0 ++ (fst d, kds) :: rdr) d kds st Hkeys Hkds)
+        as [st1 [scs [Hex [Hrel [Hs1 [Ht1 [Hm1 [Hp1 Htab1]]]]]]]].
+      assert (Hag1 : tables_agree (rd0 ++ [(fst d, kds)]) (rt_tab st1)).
+      { intros name kds0 Hl. rewrite tab_lookup_app in Hl. rewrite Htab1. cbn [find].
+        destruct (tab_lookup name rd0) as [x|] eqn:Hl0.
+        - inversion Hl; subst x.
+          assert (Hne : bytes_eqb (fst d) name = false).
+          { destruct (bytes_eqb (fst d) name) eqn:E; [|reflexivity]. apply bytes_eqb_eq in E. subst name.
+            rewrite (tab_lookup_none (fst d) rd0 (Hfresh d (or_introl eq_refl))) in Hl0. discriminate. }
+          rewrite Hne, (find_filter_other name (fst d) (rt_tab st) Hne). apply (Hag name kds0 Hl0).
+        - cbn [tab_lookup] in Hl. destruct (bytes_eqb name (fst d)) eqn:E; [|discriminate].
+          inversion Hl; subst kds0. rewrite bytes_eqb_sym, E. split; [exact Hrel|exact Hdist]. }
+      destruct (IH (rd0 ++ [(fst d, kds)]) rdr st1 Hnd) as [st2 [Hex2 [Hs2 [Ht2 [Hm2 [Hp2 Hag2]]]]]];
+        try assumption.
+      { intros d' Hin. rewrite map_app, (proj2 (mem_id_app_false _ _ _)); [reflexivity|]. split.
+        - apply Hfresh. right. exact Hin.
+        - cbn [map fst mem_id]. rewrite orb_false_r.
+          destruct (bytes_eqb (fst d) (fst d')) eqn:E; [|reflexivity]. apply bytes_eqb_eq in E.
+          exfalso. rewrite E in Hn1. assert (mem_id (fst d') (map fst r) = true).
+          { clear -Hin. induction r as [|x r IH]; [contradiction|]. cbn [map mem_id]. destruct Hin as [->|Hin].
+            - rewrite (proj2 (bytes_eqb_eq _ _) eq_refl). reflexivity.
+            - rewrite (IH Hin). apply orb_true_r. }
+          congruence. }
+      { reflexivity. }
+      exists st2. split.
+      { cbn [flat_map]. rewrite (exec_app_ok uc tc _ _ st st1 Hex). exact Hex2. }
+      rewrite <- app_assoc in Hag2. cbn [app] in Hag2.
+      split; [congruence|]. split; [congruence|]. split; [congruence|]. split; [congruence|]. exact Hag2.
+  Qed.
+
+  Lemma exec_fragment rts t d rd :
+    supported6 uc tc rts t = true -> sem t = Some d -> rts_data rts = Some rd ->
+    exists st v d',
+      exec uc tc init_state (doc_events rts t) = ROk st /\ built st = dehole v /\
+      erase_doc rd d = Some d' /\ to_dv v = d'.
+  Proof.
+    unfold supported6. intros Hsup Hsem Hrd. rewrite Hrd in Hsup.
+    apply andb_true_iff in Hsup as [Hrts Hs]. unfold rts_ok in Hrts. apply andb_true_iff in Hrts as [Hnd Hok].
+    destruct (supp uc tc rd [] PGen t) as [ids'|] eqn:Hsp; [|discriminate].
+    destruct (rt_decls_run rts [] rd init_state Hnd (fun _ _ => eq_refl) Hok Hrd) as [st0 [Hex0 [Hs0 [Ht0 [Hm0 [Hp0 Hag]]]]]].
+    { intros name kds Hl. discriminate. }
+    cbn [app] in Hag.
+    destruct (use_value uc tc rd (rt_tab st0) t (all_values uc tc rd (rt_tab st0) Hag t) [] PGen ids' st0 [FTop] d Hsp)
       as [st' [v [Hex [Hput [Hf [Hc [Her [Hh [Hp _]]]]]]]]];
       try reflexivity; try discriminate; try assumption.
-    { constructor. }
+    { rewrite Ht0. reflexivity. }
+    { split; [rewrite Hp0; reflexivity|reflexivity]. }
+    { rewrite Hm0. reflexivity. }
+    { rewrite Hm0. constructor. }
     exists st', v, (to_dv v). split.
-    { unfold doc_events. cbn [flat_map app exec step rbind].
-      rewrite (exec_app_ok uc tc _ _ init_state st' Hex). reflexivity. }
+    { unfold doc_events. cbn [exec step rbind].
+      rewrite (exec_app_ok uc tc _ _ init_state st0 Hex0).
+      rewrite (exec_app_ok uc tc _ _ st0 st' Hex). reflexivity. }
     split.
-    { cbn [put init_state tobj] in Hput. unfold built, built_raw.
+    { rewrite Ht0 in Hput. cbn [put init_state tobj] in Hput. unfold built, built_raw.
       inversion Hput as [[Hs' Ht']]. destruct (contb t); reflexivity. }
     split.
-    { unfold erase_doc. cbn [init_state marked env_data map] in Her. rewrite Her. reflexivity. }
+    { unfold erase_doc. rewrite Hm0 in Her. cbn [init_state marked env_data map] in Her. rewrite Her. reflexivity. }
     reflexivity.
   Qed.
 
   (* C06, the part that holds: a document of the fragment is built without error, and the data
-     of the value built are the data of the document, references resolved and markers dropped *)
-  Theorem fragment_builds es t d :
-    strip es = doc_events [] t ->
-    supported6 uc tc [] t = true -> sem t = Some d ->
+     of the value built are the data of the document, records as maps, references resolved and
+     markers dropped *)
+  Theorem fragment_builds es rts t d rd :
+    strip es = doc_events rts t ->
+    supported6 uc tc rts t = true -> sem t = Some d -> rts_data rts = Some rd ->
     exists v d',
-      build_untyped uc tc es = Ok v /\ erase_doc [] d = Some d' /\ to_dv v = d'.
+      build_untyped uc tc es = Ok v /\ erase_doc rd d = Some d' /\ to_dv v = d'.
   Proof.
-    intros Hes Hsup Hsem.
-    destruct (exec_fragment t d Hsup Hsem) as [st [v [d' [Hex [Hb [Her Hd]]]]]].
+    intros Hes Hsup Hsem Hrd.
+    destruct (exec_fragment rts t d rd Hsup Hsem Hrd) as [st [v [d' [Hex [Hb [Her Hd]]]]]].
     exists (built st), d'. split; [|split; [exact Her|]].
     - unfold build_untyped. destruct (run uc tc init_state es 0) as [r i] eqn:Hrun.
       pose proof (run_exec uc tc es init_state 0) as Hre. rewrite Hrun in Hre. cbn [fst] in Hre.
@@ -1754,11 +2114,11 @@ Lemma frag_example_builds :
 Proof. vm_compute. reflexivity. Qed.
 
 (* the two halves of the fragment theorem, separately *)
-Lemma fragment_total uc tc es t d :
-  strip es = doc_events [] t -> supported6 uc tc [] t = true -> sem t = Some d ->
+Lemma fragment_total uc tc es rts t d rd :
+  strip es = doc_events rts t -> supported6 uc tc rts t = true -> sem t = Some d -> rts_data rts = Some rd ->
   exists v, build_untyped uc tc es = Ok v.
 Proof.
-  intros H1 H2 H3. destruct (fragment_builds uc tc es t d H1 H2 H3) as [v [d' [Hb _]]].
+  intros H1 H2 H3 H4. destruct (fragment_builds uc tc es rts t d rd H1 H2 H3 H4) as [v [d' [Hb _]]].
   exists v. exact Hb.
 Qed.
 
@@ -1851,17 +2211,40 @@ Proof.
 Qed.
 
 (* C06, second half on the fragment: marshaling the value built gives a document with the erased data *)
-Theorem fragment_remarshals uc tc es t d d' :
-  strip es = doc_events [] t -> supported6 uc tc [] t = true -> sem t = Some d ->
-  erase_doc [] d = Some d' -> dv_plain d' = true ->
+Theorem fragment_remarshals uc tc es rts t d rd d' :
+  strip es = doc_events rts t -> supported6 uc tc rts t = true -> sem t = Some d -> rts_data rts = Some rd ->
+  erase_doc rd d = Some d' -> dv_plain d' = true ->
   exists v t', build_untyped uc tc es = Ok v /\
                iterate_doc v = Some (doc_events [] t') /\ sem t' = Some d'.
 Proof.
-  intros H1 H2 H3 He Hp.
-  destruct (fragment_builds uc tc es t d H1 H2 H3) as [v [d'' [Hb [He' Hd]]]].
+  intros H1 H2 H3 H4 He Hp.
+  destruct (fragment_builds uc tc es rts t d rd H1 H2 H3 H4) as [v [d'' [Hb [He' Hd]]]].
   rewrite He in He'. injection He' as Hdd. rewrite <- Hdd in Hd. clear Hdd.
   rewrite <- Hd in Hp. destruct (iterate_denotes v Hp) as [t' [Hi Hs]].
   exists v, t'. split; [exact Hb|]. split.
   - unfold iterate_doc. rewrite Hi. reflexivity.
   - rewrite Hs, Hd. reflexivity.
 Qed.
+
+(* records, the integer -0 and a wide array in chunks are in the fragment as well *)
+Definition rec_example_rts : list rtdecl :=
+  [([120], [TLeaf (EStringArray AT_String [97]); TLeaf (EPosInt 2)]); ([121], [TLeaf (EBool true)])].
+Definition rec_example : dt :=
+  TList [TRecord [120] [TLeaf (EPosInt 5); TMark [97] (TList [TLeaf ENull])];
+         TRecord [121] [TRef [97]];
+         TLeaf (ENegInt 0);
+         TChunked (ABArray AT_Uint16) [EArrayChunk 2 false; EArrayData [1; 0; 2; 0]]].
+Lemma rec_example_supported :
+  supported6 (fun b => Some b) (fun b => Some (b, b)) rec_example_rts rec_example = true.
+Proof. vm_compute. reflexivity. Qed.
+Lemma rec_example_accepted :
+  Rules.accepts_document Rules.default_rcfg (doc_events rec_example_rts rec_example) = true.
+Proof. vm_compute. reflexivity. Qed.
+Lemma rec_example_data :
+  option_map to_dv (match build_untyped (fun b => Some b) (fun b => Some (b, b)) (doc_events rec_example_rts rec_example)
+                    with Ok v => Some v | _ => None end) =
+  Some (DList [DMap [(DStr [97], DInt 5); (DInt 2, DList [DNull])];
+               DMap [(DBool true, DList [DNull])];
+               DNegZero;
+               DArr AT_Uint16 [1; 0; 2; 0]]).
+Proof. vm_compute. reflexivity. Qed.
